@@ -8,7 +8,7 @@ from celmodel.expr import render_min
 from .common import (exec_case, rng_for, same_outcome, mismatch_kind, fmt_outcome, crash_sig, chunks, norm_log)
 
 RULE = ("the five macros (exists_one and existsOne, map with 2 and 3 arguments) over every list of length "
-        "0-4 (quick) / 0-6 (thorough) from a 3-symbol alphabet, random lists to length 50, maps with 0-4 keys (also keys of different kinds that print alike); long single-thread histories interleaving folds that raise inside the loop with nested folds of 20-90 thousand iterations each (about 5-10 million iterations per history in the quick tier, 40-80 million in the thorough tier); "
+        "0-4 (quick) / 0-6 (thorough) from a 3-symbol alphabet, random lists to length 50, lists of length <= 3 / 4 whose neighbours are identical or equal-but-distinguishable (1, 1u, 1.0, 0.0, -0.0, '1'), maps with 0-4 keys (also keys of different kinds that print alike); long single-thread histories interleaving folds that raise inside the loop with nested folds of 20-90 thousand iterations each (about 5-10 million iterations per history in the quick tier, 40-80 million in the thorough tier); "
         "bodies: pure predicates / transforms, bodies raising on a chosen element, call-logging bodies, and a "
         "second macro nested in the body (same and different variable); observed outcome and ordered call log "
         "compared with Python folds with explicit early exit (map ranges: any key order); non-trivial = range "
@@ -76,6 +76,7 @@ def units(tier, seed):
         for i in range(0, len(lists), step):
             us.append(('lists', n, i, min(len(lists), i + step)))
     us.append(('maps',))
+    us.append(('heterolists', 3 if tier == 'quick' else 4))
     us.append(('mixedmaps', 0))
     us.append(('mixedmaps', 1))
     for i in range(2 if tier == 'quick' else 16):
@@ -217,6 +218,30 @@ def run_unit(unit, drv, res, seed, tier):
                             items.append((outer, 'chain:map-then-' + outer[1], True))
         run_items(res, drv, items, 'chained')
         res.exhaustive_done['chained-macros'] = True
+    elif kind == 'heterolists':
+        # lists whose neighbours are identical or equal under == yet distinguishable (1, 1u, 1.0; 0.0, -0.0): every
+        # element is visited in its own right and the folds see exactly the current one
+        from celmodel.values import D
+        alpha = [I(1), U(1), D(1.0), D(0.0), D(-0.0), I(2), S('1')]
+        n_max = unit[1]
+        for n in range(1, n_max + 1):
+            for xs in itertools.product(alpha, repeat=n):
+                if n == n_max and len(set(map(repr, xs))) > 3:
+                    continue
+                rng_e = ('list', [('lit', v) for v in xs])
+                one = ('lit', I(1))
+                for e, fam in ((('macro', 'map', rng_e, 'x', [X]), 'map1:hetero'),
+                               (('macro', 'map', rng_e, 'x', [('list', [X, X])]), 'map1:hetero'),
+                               (('macro', 'filter', rng_e, 'x', [('bin', '==', X, one)]), 'filter:hetero'),
+                               (('macro', 'filter', rng_e, 'x', [('lit', B(True))]), 'filter:hetero'),
+                               (('macro', 'map', rng_e, 'x', [('bin', '==', X, one), X]), 'map2:hetero'),
+                               (('macro', 'all', rng_e, 'x', [('call', 't', [X, ('bin', '==', X, one)])]), 'all:hetero'),
+                               (('macro', 'exists', rng_e, 'x', [('call', 't', [X, ('bin', '!=', X, one)])]), 'exists:hetero'),
+                               (('macro', 'exists_one', rng_e, 'x', [('call', 't', [X, ('bin', '==', X, one)])]), 'exists_one:hetero'),
+                               (('macro', 'map', rng_e, 'x', [('macro', 'map', rng_e, 'y', [('list', [X, ('id', 'y')])])]), 'map1:hetero-nested')):
+                    items.append((e, fam, True))
+        run_items(res, drv, items, 'heterolists')
+        res.exhaustive_done['lists-of-equal-but-distinguishable-neighbours-len-le-%d' % n_max] = True
     elif kind == 'mixedmaps':
         # maps whose keys are of different kinds and partly print alike (1, 1u, '1', true, 'true'): every key is
         # an element of the range in its own right
